@@ -175,7 +175,9 @@ Proof.
   destruct (proto_of (r_type r)) eqn:PO.
   5: { inversion H; subst. eapply o_old; [exact N|apply same_flags_refl]. }
   all: destruct (is_start (r_type r)) eqn:IS;
-       [eapply handle_start_origin; [symmetry; exact PO|exact IS|exact H|exact N] | eapply handle_cont_origin; [exact IS|exact H|exact N]].
+       [eapply handle_start_origin; [symmetry; exact PO|exact IS|exact H|exact N] |];
+       (destruct (is_client (r_type r) || needs_tunnel (r_type r))%bool;
+        [eapply handle_cont_origin; [exact IS|exact H|exact N] | inversion H; subst; eapply o_old; [exact N|apply same_flags_refl]]).
 Qed.
 
 (* ---- provenance of the session flags over histories ---- *)
@@ -271,7 +273,7 @@ Lemma proto_eqb_eq a b : proto_eqb a b = true -> a = b.
 Proof. destruct a, b; cbn; congruence. Qed.
 
 Lemma handle_cases st r st' resp eff : handle st r = (st', resp, eff) ->
-  (eff = [] /\ (resp = RNoBody \/ resp = RType 255)) \/
+  (eff = [] /\ (resp = RNoBody \/ resp = RType 255 \/ resp = RType 0)) \/
   (exists rt s2, is_start (r_type r) = true /\
      respond (r_type r) (fresh (proto_of (r_type r))) r = (rt, s2, eff) /\ rt <> 255 /\ resp = RType rt) \/
   (exists id s rt s2, is_start (r_type r) = false /\ lookup st (r_tok r) = Some (id, s) /\
@@ -282,7 +284,7 @@ Proof.
   destruct (r_type r =? 255) eqn:T255.
   { left. destruct (lookup st (r_tok r)) as [[id s]|]; inversion H; auto. }
   assert (START : forall p, p = proto_of (r_type r) -> is_start (r_type r) = true -> handle_start st p r = (st', resp, eff) ->
-    (eff = [] /\ (resp = RNoBody \/ resp = RType 255)) \/
+    (eff = [] /\ (resp = RNoBody \/ resp = RType 255 \/ resp = RType 0)) \/
     (exists rt s2, is_start (r_type r) = true /\
        respond (r_type r) (fresh (proto_of (r_type r))) r = (rt, s2, eff) /\ rt <> 255 /\ resp = RType rt) \/
     (exists id s rt s2, is_start (r_type r) = false /\ lookup st (r_tok r) = Some (id, s) /\
@@ -293,7 +295,7 @@ Proof.
     destruct (rt =? 255) eqn:RT; inversion HS; subst; [left; auto|].
     right. left. exists rt, s2. repeat split; auto. now apply N.eqb_neq. }
   assert (CONT : forall p, p = proto_of (r_type r) -> is_start (r_type r) = false -> handle_cont st p r = (st', resp, eff) ->
-    (eff = [] /\ (resp = RNoBody \/ resp = RType 255)) \/
+    (eff = [] /\ (resp = RNoBody \/ resp = RType 255 \/ resp = RType 0)) \/
     (exists rt s2, is_start (r_type r) = true /\
        respond (r_type r) (fresh (proto_of (r_type r))) r = (rt, s2, eff) /\ rt <> 255 /\ resp = RType rt) \/
     (exists id s rt s2, is_start (r_type r) = false /\ lookup st (r_tok r) = Some (id, s) /\
@@ -313,7 +315,8 @@ Proof.
       (split; [first [exact IS|reflexivity]|]; split; [first [exact L|reflexivity]|]; split; [exact PE|]; split; [first [exact R|reflexivity]|]; split; [now apply N.eqb_neq|]; split; [reflexivity|exact GT]). }
   destruct (proto_of (r_type r)) eqn:PO.
   5: { inversion H. left. auto. }
-  all: destruct (is_start (r_type r)) eqn:IS; [apply (START _ eq_refl eq_refl H)|apply (CONT _ eq_refl eq_refl H)].
+  all: destruct (is_start (r_type r)) eqn:IS; [apply (START _ eq_refl eq_refl H)|];
+       destruct (is_client (r_type r) || needs_tunnel (r_type r))%bool; [apply (CONT _ eq_refl eq_refl H)|inversion H; left; auto].
 Qed.
 
 (* C02: SetupDevice is answered, later TO2 messages are accepted, modules run and vouchers are replaced only in a
@@ -322,7 +325,7 @@ Theorem to2_setup_gate st h r st' eff :
   reach st h -> handle st r = (st', RType 65, eff) ->
   r_type r = 64 /\ r_ok r = true /\ exists id, r_tok r = TSess id /\ started_by h id PTO2.
 Proof.
-  intros RCH H. destruct (handle_cases _ _ _ _ _ H) as [[_ [X|X]]|[[rt [s2 [IS [R [NE X]]]]]|[id [s [rt [s2 [IS [L [P [R [NE [X GT]]]]]]]]]]]];
+  intros RCH H. destruct (handle_cases _ _ _ _ _ H) as [[_ [X|[X|X]]]|[[rt [s2 [IS [R [NE X]]]]]|[id [s [rt [s2 [IS [L [P [R [NE [X GT]]]]]]]]]]]];
     try discriminate; inversion X; subst rt.
   - destruct (respond_start _ _ _ _ _ _ IS eq_refl R) as [_ [_ [_ [_ [Q _]]]]].
     destruct (respond_spec _ _ _ _ _ _ R) as [_ [_ [_ [_ [_ [S65 _]]]]]]. destruct (S65 eq_refl) as [_ [T _]].
@@ -339,8 +342,9 @@ Theorem to2_tunnel_gate st h r st' t eff :
   (t = 67 \/ t = 69 \/ t = 71 \/ In EModule eff \/ In EReplace eff) ->
   exists id, r_tok r = TSess id /\ r_enc r = true /\ proved_by h id.
 Proof.
-  intros RCH H C. destruct (handle_cases _ _ _ _ _ H) as [[E [X|X]]|[[rt [s2 [IS [R [NE X]]]]]|[id [s [rt [s2 [IS [L [P [R [NE [X GT]]]]]]]]]]]].
+  intros RCH H C. destruct (handle_cases _ _ _ _ _ H) as [[E [X|[X|X]]]|[[rt [s2 [IS [R [NE X]]]]]|[id [s [rt [s2 [IS [L [P [R [NE [X GT]]]]]]]]]]]].
   - discriminate.
+  - inversion X; subst. destruct C as [C|[C|[C|[C|C]]]]; try discriminate; contradiction.
   - inversion X; subst. destruct C as [C|[C|[C|[C|C]]]]; try discriminate; contradiction.
   - inversion X; subst rt. destruct (respond_start _ _ _ _ _ _ IS eq_refl R) as [E _]. subst eff.
     assert (t = 11 \/ t = 21 \/ t = 31 \/ t = 61).
@@ -374,8 +378,9 @@ Theorem second_message_gate st h r st' t eff :
      (In ERVBlob eff /\ p = PTO0 /\ r_type r = 22 /\ t = 23) \/
      (t = 33 /\ p = PTO1 /\ r_type r = 32)).
 Proof.
-  intros RCH H C. destruct (handle_cases _ _ _ _ _ H) as [[E [X|X]]|[[rt [s2 [IS [R [NE X]]]]]|[id [s [rt [s2 [IS [L [P [R [NE [X GT]]]]]]]]]]]].
+  intros RCH H C. destruct (handle_cases _ _ _ _ _ H) as [[E [X|[X|X]]]|[[rt [s2 [IS [R [NE X]]]]]|[id [s [rt [s2 [IS [L [P [R [NE [X GT]]]]]]]]]]]].
   - discriminate.
+  - inversion X; subst. destruct C as [C|[C|C]]; try discriminate; contradiction.
   - inversion X; subst. destruct C as [C|[C|C]]; try discriminate; contradiction.
   - inversion X; subst rt. destruct (respond_spec _ _ _ _ _ _ R) as [S1 [S2 [_ [_ [S5 _]]]]].
     assert (TT : r_type r = 12 \/ r_type r = 22 \/ r_type r = 32).
@@ -457,11 +462,11 @@ Qed.
    protocol's first message, gets an error (or, for an error message, no reply body), has no effect and changes nothing *)
 Theorem bad_token_no_effect st r st' resp eff :
   lookup st (r_tok r) = None -> is_start (r_type r) = false -> handle st r = (st', resp, eff) ->
-  st' = st /\ eff = [] /\ (resp = RType 255 \/ resp = RNoBody).
+  st' = st /\ eff = [] /\ (resp = RType 255 \/ resp = RNoBody \/ resp = RType 0).
 Proof.
   unfold handle, handle_cont. intros L IS H. rewrite L, IS in H.
   destruct (r_type r =? 255); [inversion H; auto|].
-  destruct (proto_of (r_type r)); inversion H; auto.
+  destruct (proto_of (r_type r)); try destruct (is_client (r_type r) || needs_tunnel (r_type r))%bool; inversion H; auto.
 Qed.
 
 (* after an error response or a protocol's final response the session is dead *)
@@ -475,11 +480,114 @@ Proof.
   assert (K : forall x, lookup (update st id (kill x)) (TSess id) = None).
   { intros x. unfold lookup. rewrite nth_update_same by assumption. reflexivity. }
   destruct (proto_of (r_type r)) eqn:PO;
-    try (destruct (negb (proto_eqb (s_proto s) _)); [inversion H; subst; apply K|];
+    try (destruct (is_client (r_type r) || needs_tunnel (r_type r))%bool;
+         [|inversion H; subst; destruct C as [[C _]|C]; discriminate];
+         destruct (negb (proto_eqb (s_proto s) _)); [inversion H; subst; apply K|];
          destruct (needs_tunnel (r_type r) && negb (s_proved s && r_enc r))%bool; [inversion H; subst; apply K|];
          destruct (respond (r_type r) s r) as [[rt s2] e2];
          destruct (rt =? 255) eqn:RT; [inversion H; subst; apply K|];
          destruct (is_final rt) eqn:FI; inversion H; subst; [apply K|];
          destruct C as [[C _]|C]; [apply N.eqb_neq in RT; contradiction|congruence]).
   destruct C as [[_ C]|C]; [contradiction|]. inversion H; subst. discriminate.
+Qed.
+
+(* a dead session never comes back: no later request, whatever its token, revives it *)
+Lemma lookup_none_update st id id' x : lookup st (TSess id) = None -> id <> id' -> lookup (update st id' x) (TSess id) = None.
+Proof. unfold lookup. intros H NE. rewrite nth_update_other by congruence. exact H. Qed.
+
+Theorem dead_forever st r st' resp eff id :
+  (id < length st)%nat -> lookup st (TSess id) = None -> handle st r = (st', resp, eff) -> lookup st' (TSess id) = None.
+Proof.
+  intros LT D H.
+  assert (APP : forall x, lookup (st ++ [x]) (TSess id) = None).
+  { intros x. unfold lookup in *. rewrite nth_error_app1 by exact LT. exact D. }
+  assert (UPD : forall id' s x, lookup st (r_tok r) = Some (id', s) -> lookup (update st id' x) (TSess id) = None).
+  { intros id' s x L. apply lookup_none_update; [exact D|]. intros ->. pose proof L as L2. apply lookup_some in L2 as [E _].
+    rewrite E in L. rewrite D in L. discriminate. }
+  unfold handle in H.
+  destruct (r_type r =? 255).
+  { destruct (lookup st (r_tok r)) as [[id' s]|] eqn:L; inversion H; subst; [eapply UPD; first [exact L|reflexivity]|exact D]. }
+  destruct (proto_of (r_type r)); try (inversion H; subst; exact D);
+    (destruct (is_start (r_type r));
+     [unfold handle_start in H; destruct (respond _ _ _) as [[rt s2] e2]; destruct (rt =? 255); inversion H; subst; apply APP|];
+     destruct (is_client (r_type r) || needs_tunnel (r_type r))%bool; [|inversion H; subst; exact D];
+     unfold handle_cont in H; destruct (lookup st (r_tok r)) as [[id' s]|] eqn:L; [|inversion H; subst; exact D];
+     destruct (negb _); [inversion H; subst; eapply UPD; first [exact L|reflexivity]|];
+     destruct (_ && _)%bool; [inversion H; subst; eapply UPD; first [exact L|reflexivity]|];
+     destruct (respond _ _ _) as [[rt s2] e2]; destruct (rt =? 255); [inversion H; subst; eapply UPD; first [exact L|reflexivity]|];
+     destruct (is_final rt); inversion H; subst; eapply UPD; first [exact L|reflexivity]).
+Qed.
+
+(* C08 / C16: an owner module runs only in a session that proved the device and announced readiness (66 accepted),
+   for an in-tunnel DeviceServiceInfo that passes every check *)
+Theorem module_gate st h r st' t eff :
+  reach st h -> handle st r = (st', RType t, eff) -> In EModule eff ->
+  exists id, r_tok r = TSess id /\ r_type r = 68 /\ t = 69 /\ r_ok r = true /\ r_enc r = true /\
+    proved_by h id /\ ready_by h id.
+Proof.
+  intros RCH H C.
+  destruct (to2_tunnel_gate _ _ _ _ _ _ RCH H (or_intror (or_intror (or_intror (or_introl C))))) as [id [TK [EN PB]]].
+  destruct (handle_cases _ _ _ _ _ H) as [[E _]|[[rt [s2 [IS [R [NE X]]]]]|[id' [s [rt [s2 [IS [L [P [R [NE [X GT]]]]]]]]]]]].
+  - subst. contradiction.
+  - destruct (respond_start _ _ _ _ _ _ IS eq_refl R) as [E _]. subst. contradiction.
+  - destruct (respond_spec _ _ _ _ _ _ R) as [_ [_ [SM _]]]. destruct (SM C) as [PS [T [RT [RD OK]]]].
+    apply lookup_some in L as [TK' [N [AL LT]]]. rewrite TK in TK'. inversion TK'; subst id'.
+    inversion X; subst.
+    exists id. repeat split; auto.
+    destruct (reach_inv _ _ RCH id s N) as [_ [I2 _]]. now apply I2.
+Qed.
+
+(* [run] produces exactly the reachable states: the per-step theorems apply to every prefix of every history *)
+Fixpoint run_from (st : server) (h : list entry) (rs : list request) : server * list entry :=
+  match rs with
+  | [] => (st, h)
+  | r :: rest => let '(st', resp, eff) := handle st r in run_from st' (h ++ [(length st, r, resp, eff)]) rest
+  end.
+
+Theorem run_reach rs : forall st h, reach st h -> reach (fst (run_from st h rs)) (snd (run_from st h rs)).
+Proof.
+  induction rs as [|r rest IH]; intros st h RCH; cbn [run_from]; [exact RCH|].
+  destruct (handle st r) as [[st' resp] eff] eqn:HS. apply IH. econstructor; eauto.
+Qed.
+
+Theorem run_from_run rs : forall st h, fst (run_from st h rs) = fst (run st rs) /\
+  map (fun e : entry => (snd (fst e), snd e)) (snd (run_from st h rs)) = map (fun e : entry => (snd (fst e), snd e)) h ++ snd (run st rs).
+Proof.
+  induction rs as [|r rest IH]; intros st h; cbn [run_from run].
+  - split; [reflexivity|now rewrite app_nil_r].
+  - destruct (handle st r) as [[st' resp] eff] eqn:HS.
+    destruct (IH st' (h ++ [(length st, r, resp, eff)])) as [A B].
+    destruct (run st' rest) as [st'' out] eqn:RR. cbn [fst snd] in *. split; [exact A|].
+    rewrite B, map_app, <- app_assoc. reflexivity.
+Qed.
+
+(* C02 over whole histories: as long as no ProveDevice passing every check was received, the TO2 responder has
+   answered nothing beyond ProveOVHdr / OVNextEntry and errors, and no module ran and no voucher was replaced *)
+Definition served_beyond_header (x : entry) : Prop :=
+  let '(_, _, resp, eff) := x in
+  resp = RType 65 \/ resp = RType 67 \/ resp = RType 69 \/ resp = RType 71 \/ In EModule eff \/ In EReplace eff.
+
+Theorem no_proof_no_service st h :
+  reach st h ->
+  (forall n r resp e, In (n, r, resp, e) h -> r_type r = 64 -> r_ok r = false) ->
+  forall x, In x h -> ~ served_beyond_header x.
+Proof.
+  induction 1 as [|st h r st' resp eff RCH IH HS]; intros NOK x IN; [contradiction|].
+  assert (NOK' : forall n r resp e, In (n, r, resp, e) h -> r_type r = 64 -> r_ok r = false).
+  { intros n r0 resp0 e IN0. apply (NOK n r0 resp0 e). apply in_or_app. now left. }
+  apply in_app_or in IN as [IN|[<-|[]]]; [now apply IH|].
+  assert (NP : forall id, ~ proved_by h id).
+  { intros id (n & r0 & e & IN0 & T & _ & OK). rewrite (NOK' _ _ _ _ IN0 T) in OK. discriminate. }
+  cbn. intros [E|[E|[E|[E|[E|E]]]]]; subst.
+  - destruct (to2_setup_gate _ _ _ _ _ RCH HS) as [T [OK _]].
+    rewrite (NOK (length st) r (RType 65) eff) in OK; [discriminate| |exact T]. apply in_or_app. right. now left.
+  - destruct (to2_tunnel_gate _ _ _ _ _ _ RCH HS (or_introl eq_refl)) as [id [_ [_ PB]]]. exact (NP id PB).
+  - destruct (to2_tunnel_gate _ _ _ _ _ _ RCH HS (or_intror (or_introl eq_refl))) as [id [_ [_ PB]]]. exact (NP id PB).
+  - destruct (to2_tunnel_gate _ _ _ _ _ _ RCH HS (or_intror (or_intror (or_introl eq_refl)))) as [id [_ [_ PB]]]. exact (NP id PB).
+  - destruct resp as [t|].
+    + destruct (to2_tunnel_gate _ _ _ _ _ _ RCH HS (or_intror (or_intror (or_intror (or_introl E))))) as [id [_ [_ PB]]]. exact (NP id PB).
+    + destruct (handle_cases _ _ _ _ _ HS) as [[E0 _]|[[rt [s2 [_ [_ [_ X]]]]]|[id [s [rt [s2 [_ [_ [_ [_ [_ [X _]]]]]]]]]]]]; [subst; contradiction|discriminate|discriminate].
+  - destruct resp as [t|].
+    + destruct (to2_tunnel_gate _ _ _ _ _ _ RCH HS (or_intror (or_intror (or_intror (or_intror E))))) as [id [_ [_ PB]]]. exact (NP id PB).
+    + destruct (handle_cases _ _ _ _ _ HS) as [[E0 _]|[[rt [s2 [_ [_ [_ X]]]]]|[id [s [rt [s2 [_ [_ [_ [_ [_ [X _]]]]]]]]]]]]; [subst; contradiction|discriminate|discriminate].
 Qed.
